@@ -97,7 +97,7 @@ theorem phase_step_bound (D Sg P T ffo ffn dyp dy ωp ω fo f A A' b b' re rn nj
 
 /-- weighted norm `N = Σ·|W| + 2·|W_prev|`: one edge contracts it by `(1 − Q/2^sp)` up to a constant,
     `Q = min(P − 3D, 2^sp/2)` -/
-theorem phase_norm_step (L D Sg P Q C0 re aW aWp aW' : Int) (hL : L = D * Sg) (hD : 0 < D) (hSg : 0 < Sg)
+theorem phase_norm_step (L D Sg P Q C0 re aW aWp aW' : Int) (hL : L = D * Sg) (_hD : 0 < D) (hSg : 0 < Sg)
     (hre : 0 ≤ re ∧ re < D) (hQ1 : Q ≤ P - 3 * D) (hQ2 : 2 * Q ≤ L)
     (h0 : 0 ≤ aW) (h1 : 0 ≤ aWp)
     (hstep : L * aW' ≤ (L - P + re) * aW + re * aWp + Sg * C0) :
